@@ -393,7 +393,12 @@ impl SyntaxNode {
     }
 
     pub fn next_sibling(&self) -> Option<SyntaxNode> {
-        self.parent()?.nth_child(self.0.index + 1)
+        // `index` counts tokens as well, so `nth_child` (which only counts nodes)
+        // cannot be used here.
+        self.parent()?
+            .children_with_tokens()
+            .skip(self.index().checked_add(1)?)
+            .find_map(|child| child.as_node())
     }
 
     pub fn last_token(&self) -> Option<SyntaxToken> {
@@ -585,7 +590,7 @@ impl SyntaxElement {
 
 #[cfg(test)]
 mod tests {
-    use crate::syntax::green::{GreenChild, GreenNode, GreenNodeData};
+    use crate::syntax::green::{GreenChild, GreenNode, GreenNodeData, GreenToken};
     use crate::syntax::node::{SyntaxElement, SyntaxNode};
     use crate::syntax::node_kind::NodeKind::*;
     use crate::syntax::rewrite::RewriteAction;
@@ -773,5 +778,34 @@ mod tests {
             .next_token()
             .expect("Node must have second token");
         assert!(third_token.kind() == TokenKind::Keyword(Keyword::Architecture));
+    }
+
+    #[test]
+    fn next_sibling_skips_interleaved_tokens() {
+        let mut n1 = GreenNodeData::new(Name);
+        n1.push_token(Token::simple(TokenKind::Identifier, b"foo"));
+        let mut n2 = GreenNodeData::new(Name);
+        n2.push_token(Token::simple(TokenKind::Identifier, b"bar"));
+
+        let mut top = GreenNodeData::new(EntityDeclaration);
+        top.push_children([
+            GreenChild::Token(GreenToken::new(Token::simple(
+                TokenKind::Keyword(Keyword::Entity),
+                b"entity",
+            ))),
+            GreenChild::Node(GreenNode::new(n1)),
+            GreenChild::Token(GreenToken::new(Token::simple(
+                TokenKind::Keyword(Keyword::Is),
+                b"is",
+            ))),
+            GreenChild::Node(GreenNode::new(n2)),
+        ]);
+
+        let s = SyntaxNode::new_root(GreenNode::new(top));
+        let first = s.first_child().expect("Node must have a first child");
+        let second = first.next_sibling().expect("Node must have a next sibling");
+        assert_eq!(second.first_token().unwrap().text(), "bar");
+        assert_eq!(Some(second.clone()), s.nth_child(1));
+        assert_eq!(second.next_sibling(), None);
     }
 }
